@@ -58,6 +58,11 @@ fn summ_float<T: F>(case: &Value, out: &mut Vec<Value>) {
     };
     // mu_p of the scaled data divided by 2^(p*sexp) (exact) is mu_p of the unscaled data
     let unscale = |v: T, pw: i32| -> T { T::f(v.g() * (2.0f64).powi(-pw * sexp)) };
+    // an observation of weight zero that holds a value whose square is not representable
+    let mut xs = xs;
+    if case.get("huge0").and_then(|x| x.as_bool()).unwrap_or(false) && w.first() == Some(&0) {
+        xs[0] = T::f(if T::NAME == "f32" { (2.0f64).powi(100) } else { (2.0f64).powi(600) } * if r[0] < 0 { -1.0 } else { 1.0 });
+    }
     let a = lay_of(case, "lay1", &shape).build(&xs, |_| T::f(-777.0));
     let l1 = lay_of(case, "lay1", &shape);
     let av = l1.view(&a);
@@ -69,8 +74,8 @@ fn summ_float<T: F>(case: &Value, out: &mut Vec<Value>) {
     let ddof = T::f(d2 as f64 / 2.0);
     let q = |x: T, sub: f64| quant(x.g() - sub, qe);
     let (outc, res): (String, Value) = match stat {
-        "mean" => res_json(guarded(|| SummaryStatisticsExt::mean(&av)), |v| q(v, base)),
-        "harmonic" => res_json(guarded(|| av.harmonic_mean()), |v| q(v, 0.0)),
+        "mean" => res_json(guarded(|| SummaryStatisticsExt::mean(&av)), |v| q(unscale(v, 1), base)),
+        "harmonic" => res_json(guarded(|| av.harmonic_mean()), |v| q(unscale(v, 1), 0.0)),
         "geometric" => res_json(guarded(|| av.geometric_mean()), |v| quant(v.g().log2(), qe)),
         "moment" => res_json(guarded(|| av.central_moment(p)), |v| json!({"q": q(unscale(v, p as i32), 0.0), "one": v.g().to_bits() == 1.0f64.to_bits() || v == T::one(), "zero": v == T::zero()})),
         "moments" => res_json(guarded(|| av.central_moments(p)), |v| {
@@ -107,11 +112,16 @@ fn summ_float<T: F>(case: &Value, out: &mut Vec<Value>) {
             // whole-array routine applied to each lane with the same weights (C18)
             let lanes: Vec<Array1<T>> = ao.lanes(Axis(axis)).into_iter().map(|l| l.to_owned()).collect();
             let per_lane = |f: &dyn Fn(&Array1<T>) -> T| -> Vec<Value> { lanes.iter().map(|l| bits3(f(l).g())).collect() };
+            // relative difference (in units of 2^-20) between each per-axis element and the whole-array routine on that lane
+            let rel = |v: &ndarray::ArrayD<T>, f: &dyn Fn(&Array1<T>) -> T| -> Vec<i64> {
+                v.iter().zip(lanes.iter()).map(|(&a, l)| { let (a, b) = (a.g(), f(l).g());
+                    if a.is_nan() && b.is_nan() { 0 } else if a.is_nan() || b.is_nan() { NAN_Q } else if a == b { 0 }
+                    else { let d = (a - b) / b.abs().max(f64::MIN_POSITIVE) * 1048576.0; if d.abs() > CAP { BIG_Q } else { d.round() as i64 } } }).collect() };
             match stat {
-                "wsum_axis" => res_json(guarded(|| ao.weighted_sum_axis(Axis(axis), &w1)), |v| json!({"q": v.iter().map(|&x| q(x, 0.0)).collect::<Vec<_>>(), "bits": v.iter().map(|&x| bits3(x.g())).collect::<Vec<_>>(), "lane_bits": per_lane(&|l| l.weighted_sum(&w1).unwrap())})),
-                "wmean_axis" => res_json(guarded(|| ao.weighted_mean_axis(Axis(axis), &w1)), |v| json!({"q": v.iter().map(|&x| q(x, base)).collect::<Vec<_>>(), "bits": v.iter().map(|&x| bits3(x.g())).collect::<Vec<_>>(), "lane_bits": per_lane(&|l| l.weighted_mean(&w1).unwrap())})),
-                "wvar_axis" => res_json(guarded(|| ao.weighted_var_axis(Axis(axis), &w1, ddof)), |v| json!({"q": v.iter().map(|&x| q(x, 0.0)).collect::<Vec<_>>(), "bits": v.iter().map(|&x| bits3(x.g())).collect::<Vec<_>>(), "lane_bits": per_lane(&|l| l.weighted_var(&w1, ddof).unwrap())})),
-                _ => res_json(guarded(|| ao.weighted_std_axis(Axis(axis), &w1, ddof)), |v| json!({"q": v.iter().map(|&x| quant(x.g() * x.g(), qe)).collect::<Vec<_>>(), "bits": v.iter().map(|&x| bits3(x.g())).collect::<Vec<_>>(), "lane_bits": per_lane(&|l| l.weighted_std(&w1, ddof).unwrap())})),
+                "wsum_axis" => res_json(guarded(|| ao.weighted_sum_axis(Axis(axis), &w1)), |v| json!({"q": v.iter().map(|&x| q(x, 0.0)).collect::<Vec<_>>(), "bits": v.iter().map(|&x| bits3(x.g())).collect::<Vec<_>>(), "lane_bits": per_lane(&|l| l.weighted_sum(&w1).unwrap()), "rel": rel(&v.clone().into_dyn(), &|l| l.weighted_sum(&w1).unwrap())})),
+                "wmean_axis" => res_json(guarded(|| ao.weighted_mean_axis(Axis(axis), &w1)), |v| json!({"q": v.iter().map(|&x| q(x, base)).collect::<Vec<_>>(), "bits": v.iter().map(|&x| bits3(x.g())).collect::<Vec<_>>(), "lane_bits": per_lane(&|l| l.weighted_mean(&w1).unwrap()), "rel": rel(&v.clone().into_dyn(), &|l| l.weighted_mean(&w1).unwrap())})),
+                "wvar_axis" => res_json(guarded(|| ao.weighted_var_axis(Axis(axis), &w1, ddof)), |v| json!({"q": v.iter().map(|&x| q(x, 0.0)).collect::<Vec<_>>(), "bits": v.iter().map(|&x| bits3(x.g())).collect::<Vec<_>>(), "lane_bits": per_lane(&|l| l.weighted_var(&w1, ddof).unwrap()), "rel": rel(&v.clone().into_dyn(), &|l| l.weighted_var(&w1, ddof).unwrap())})),
+                _ => res_json(guarded(|| ao.weighted_std_axis(Axis(axis), &w1, ddof)), |v| json!({"q": v.iter().map(|&x| quant(x.g() * x.g(), qe)).collect::<Vec<_>>(), "bits": v.iter().map(|&x| bits3(x.g())).collect::<Vec<_>>(), "lane_bits": per_lane(&|l| l.weighted_std(&w1, ddof).unwrap()), "rel": rel(&v.clone().into_dyn(), &|l| l.weighted_std(&w1, ddof).unwrap())})),
             }
         }
         _ => panic!("unknown float stat {stat}"),
@@ -402,8 +412,10 @@ pub fn gen(seed: u64, count: usize, tier: &str, params: &Params) -> Vec<Value> {
                 let mut w: Vec<i64> = (0..wl).map(|_| rng.range(0, if ty == "u8" && long { 1 } else { 4 })).collect();
                 if w.iter().sum::<i64>() == 0 { w[0] = 1; }
                 let bexp = if matches!(stat, "mean" | "wmean" | "wmean_axis") && !f32ty && !long { *rng.pick(&[-1i64, -1, 10, 20, 30]) } else { -1 };
+                // data scaled by an exact power of two: the means scale with it (neighbouring products leave the range, the values do not)
+                let sexp: i64 = if matches!(stat, "harmonic" | "mean") && bexp < 0 { if f32ty { *rng.pick(&[0i64, 0, 62, -62, 100, -100]) } else { *rng.pick(&[0i64, 0, 520, -520, 900, -900]) } } else { 0 };
                 cases.push(json!({"ev": "summ", "stat": stat, "ty": ty, "r": r, "w": w, "S": if stat == "harmonic" || stat.ends_with("_int") { 1 } else { 4 }, "WS": *rng.pick(&[1i64, 4]),
-                                  "bexp": bexp, "wexp": if matches!(stat, "wsum" | "wmean") { if f32ty { *rng.pick(&[0i64, 0, -60, 40]) } else { *rng.pick(&[0i64, 0, -80, -200, 60]) } } else { 0 },
+                                  "sexp": sexp, "bexp": bexp, "wexp": if matches!(stat, "wsum" | "wmean") { if f32ty { *rng.pick(&[0i64, 0, -60, 40]) } else { *rng.pick(&[0i64, 0, -80, -200, 60]) } } else { 0 },
                                   "qe": if f32ty { 8 } else if long { 10 } else { 14 }, "tol": 2, "shape": shape, "axis": axis, "lay1": lay1, "lay2": lay2,
                                   "wlay": *rng.pick(&["plain", "rev", "step"])}));
             }
@@ -425,11 +437,12 @@ pub fn gen(seed: u64, count: usize, tier: &str, params: &Params) -> Vec<Value> {
                         let mut r = r;
                         // an observation of weight zero may hold anything - e.g. a huge value - without influencing the result
                         if !stat.ends_with("_axis") && w[0] == 0 && rng.chance(1, 2) { r[0] = if rng.chance(1, 2) { (1 << 29) - 1 } else { -(1 << 29) + 1 }; }
+                        let huge0 = !stat.ends_with("_axis") && w[0] == 0 && r[0].abs() > 1000 && rng.chance(1, 2);
                         let d = rng.range(0, 2);
                         // the variance with ddof = 0 does not change when all weights are scaled by a power of two
                         let wexp: i64 = if d == 0 { if f32ty { *rng.pick(&[0i64, 0, -60, 40]) } else { *rng.pick(&[0i64, 0, -80, -200, 60]) } } else { 0 };
                         let bexp = if f32ty { -1 } else { *rng.pick(&[-1i64, -1, 10, 20]) };
-                        cases.push(json!({"ev": "summ", "stat": stat, "ty": ty, "r": r, "w": w, "S": 4, "WS": 1, "d": d, "wexp": wexp, "bexp": bexp,
+                        cases.push(json!({"ev": "summ", "stat": stat, "ty": ty, "r": r, "w": w, "S": 4, "WS": 1, "d": d, "wexp": wexp, "bexp": bexp, "huge0": huge0,
                                           "qe": if f32ty { 6 } else { 12 }, "tol": 2, "shape": shape, "axis": axis, "lay1": lay1, "lay2": lay2,
                                           "wlay": *rng.pick(&["plain", "rev", "step"])}));
                     }
@@ -465,7 +478,27 @@ pub fn gen(seed: u64, count: usize, tier: &str, params: &Params) -> Vec<Value> {
                                                        2 => vec![0; wl], _ => (0..wl).map(|_| rng.range(0, 5)).collect() };
                 let ty = *rng.pick(&["f64", "f64", "f32"]);
                 cases.push(json!({"ev": "summ", "stat": *rng.pick(&["wsum_axis", "wmean_axis", "wvar_axis", "wstd_axis", "wstd_axis"]), "ty": ty, "r": r, "w": w, "S": 4,
-                                  "WS": *rng.pick(&[1i64, 4, 4, 16]), "d": rng.range(0, 2), "wexp": 0, "bexp": -1, "qe": 4, "tol": 2, "shape": shape, "axis": axis,
+                                  "WS": *rng.pick(&[1i64, 4, 4, 16]), "d": rng.range(0, 2), "wexp": 0, "bexp": -1, "qe": 4, "tol": 2, "shape": shape, "axis": axis, "pair_only": true,
+                                  "lay1": lay1, "lay2": lay2, "wlay": *rng.pick(&["plain", "rev", "step"])}));
+            }
+            "axpair" => {
+                // per-axis forms against the whole-array routine per lane on NON-dyadic data (v/3, v/10, v/7) whose lanes sit at very
+                // different magnitudes, >= 2 lanes, any layout: only the agreement of the two routines is judged
+                let nd = rng.range(2, 3) as usize;
+                let shape: Vec<usize> = (0..nd).map(|_| rng.range(2, 4) as usize).collect();
+                let n: usize = shape.iter().product();
+                let axis = rng.below(nd as u64) as usize;
+                let (lay1, lay2) = two_lays(&mut rng, &shape);
+                let offs = [0i64, 1000, 1_000_000, 500_000_000];
+                // the offset depends on the position along the OTHER axes (so lanes differ in magnitude)
+                let r: Vec<i64> = (0..n).map(|t| { let mut rem = t; let mut key = 0usize; for k in (0..nd).rev() { let c = rem % shape[k]; rem /= shape[k]; if k != axis { key = key * 5 + c; } }
+                                                    offs[(key * 7 + 1) % 4] + rng.range(-40, 40) }).collect();
+                let wl = shape[axis];
+                let mut w: Vec<i64> = (0..wl).map(|_| rng.range(0, 9)).collect();
+                if w.iter().sum::<i64>() < 2 { w[wl - 1] = 3; }
+                let ty = *rng.pick(&["f64", "f64", "f32"]);
+                cases.push(json!({"ev": "summ", "stat": *rng.pick(&["wsum_axis", "wmean_axis", "wvar_axis", "wvar_axis", "wstd_axis"]), "ty": ty, "r": r, "w": w, "S": *rng.pick(&[3i64, 10, 7]),
+                                  "WS": *rng.pick(&[1i64, 3, 10]), "d": rng.range(0, 2), "wexp": 0, "bexp": -1, "qe": 2, "tol": 2, "shape": shape, "axis": axis, "pair_only": true,
                                   "lay1": lay1, "lay2": lay2, "wlay": *rng.pick(&["plain", "rev", "step"])}));
             }
             "c18big" => {
